@@ -368,34 +368,27 @@ theorem no_panic (ops : List Op) (hff : FF ops) (o : Op) (ho : o.faultFree = tru
     (step (run init ops) o).2 ≠ .panic :=
   nopanic_step (archive_invariant ops hff) o ho
 
-/-! ### a single failing storage `Put`
+/-! ### failing storage `Put`s
 
-The theorems above quantify over fault-free histories, as the property does. Since the repair of F38 (`Persist` also
-rolls back `ArchiveMinVersion`) the decryption window also survives a storage `Put` that fails inside any of the
-transactional endpoint operations (rotate, config, trim — they run inside `StartTxStorage`, so the storage writes of
-the failed request are rolled back and `Persist` restores the policy object). It does NOT survive a `Put` failing inside
-`restore`, which writes the archive and the policy with two `Put`s outside any transaction (finding F39): the full
-statement stays false, witnessed below by kernel evaluation and replayed on the real code on every run by the streams
-`keysutil-faults` / `transit-endpoints-faults`. -/
+The theorems above quantify over fault-free histories, as the property does. Since the repairs of F38 (`Persist` also
+rolls back `ArchiveMinVersion`) and F39 (the restore endpoint runs `RestorePolicy` inside `StartTxStorage`) the
+decryption window also survives storage `Put`s that fail inside ANY endpoint operation, under one assumption that is
+built into the model and realised by the fault streams: the storage backend is transactional (as raft and the
+in-memory backend are), so that the writes of a failed rotate / config / trim / restore request are rolled back; backup
+writes nothing it has to undo. For the bare library call `keysutil.LockManager.RestorePolicy` on a storage handle that is
+not a transaction (`restoreRaw`) the statement stays false — two `Put`s, no atomicity — witnessed below by kernel
+evaluation and replayed on the real library on every run by the stream `keysutil-faults`. -/
 
-/-- `old_versions_until_min_raised` when the later history may also plan storage faults and contain restores, all of
-    which fail (so the key ring is never legitimately replaced) -/
-def old_versions_under_faults_full : Prop :=
-  ∀ (ops : List Op) (_ : FF ops) (ver : Int) (ctx aad nonce plain : String) (h v : Nat)
-    (_ : (encrypt (run init ops) ver ctx aad nonce plain).2 = .okArt h v)
-    (later : List Op) (_ : ∀ o ∈ later, o.keepsRingOrFaultOrRestore = true)
-    (_ : restoresFail (encrypt (run init ops) ver ctx aad nonce plain).1 later = true),
-    ∃ p2, (run (encrypt (run init ops) ver ctx aad nonce plain).1 later).pol = some p2 ∧
-      (p2.minDec ≤ v →
-        (decrypt (run (encrypt (run init ops) ver ctx aad nonce plain).1 later) h .same .same ctx aad).2 = .okPlain plain)
-
-/-- **old_versions_under_faults_partial.** `old_versions_until_min_raised` holds verbatim when the later history
-plans storage faults (any failing `Put`, first, second, ...) in front of rotate, config or trim operations — any
-number of such failed operations, retried or not, interleaved with everything else that keeps the ring: at the end
-the ciphertext decrypts iff `min_decryption_version ≤ v`, and is refused as too old otherwise. -/
-theorem old_versions_under_faults_partial (ops : List Op) (hff : FF ops) (ver : Int) (ctx aad nonce plain : String)
+/-- **old_versions_under_faults.** `old_versions_until_min_raised` holds verbatim when the later history also plans
+storage faults — any failing `Put` (first, second, third, ...), in front of any endpoint operation, any number of
+them, retried or not — and contains restores through the endpoint that fail (for whatever reason: the injected fault,
+an existing key without `force`); a restore that succeeds legitimately replaces the key ring and is excluded. At the
+end the ciphertext decrypts iff `min_decryption_version ≤ v`, and is refused as too old otherwise. Assumption:
+transactional storage (see above). -/
+theorem old_versions_under_faults (ops : List Op) (hff : FF ops) (ver : Int) (ctx aad nonce plain : String)
     (h v : Nat) (henc : (encrypt (run init ops) ver ctx aad nonce plain).2 = .okArt h v)
-    (later : List Op) (ht : txFaults false later = true) :
+    (later : List Op) (ho : ∀ o ∈ later, o.keepsRingOrFaultOrRestore = true)
+    (hr : restoresFail (encrypt (run init ops) ver ctx aad nonce plain).1 later = true) :
     ∃ p2, (run (encrypt (run init ops) ver ctx aad nonce plain).1 later).pol = some p2 ∧ v ≤ p2.latest ∧
       ((decrypt (run (encrypt (run init ops) ver ctx aad nonce plain).1 later) h .same .same ctx aad).2 = .okPlain plain
         ↔ p2.minDec ≤ v) ∧
@@ -411,26 +404,36 @@ theorem old_versions_under_faults_partial (ops : List Op) (hff : FF ops) (ver : 
     rw [hst, hh, ← k4]; exact artAt_intern st a
   have hp1 : (encrypt st ver ctx aad nonce plain).1.pol = some p := by rw [hst]; exact hp
   generalize (encrypt st ver ctx aad nonce plain).1 = st1 at *
-  obtain ⟨ha2, p2, hp2, t1, t2, t3, t4, t6, t5⟩ := later_setup_faults hi1 ha1 hp1 k3 later ht
+  obtain ⟨ha2, p2, hp2, t1, t2, t3, t4, t6, t5⟩ := later_setup_any hi1 ha1 hp1 k3 later ho hr
   subst hv
   exact ⟨p2, hp2, t4, decrypt_window_core ha2 hp2 t1 t2 t4 t6 t5 s1 s4 s5 s6 k2⟩
 
-/-- **old_versions_under_faults_cex (F39).** Create, make the key exportable, take a backup, rotate, encrypt
-(version 2); then `restore` (force) whose policy `Put` — the third of the operation — fails after the backup's
-archive was written; rotate; raise `min_decryption_version` to 3 and lower it to 1. The version-2 ciphertext, inside
-`[1, 3]`, is refused: the existing ring was paired with the backup's shorter archive, the rotation padded it with an
-empty entry for version 2, and that entry was loaded back into the key map. -/
-theorem old_versions_under_faults_cex : ¬ old_versions_under_faults_full := by
+/-- the same statement when the later history may also call `RestorePolicy` outside a transaction -/
+def old_versions_under_faults_bare_restore_full : Prop :=
+  ∀ (ops : List Op) (_ : FF ops) (ver : Int) (ctx aad nonce plain : String) (h v : Nat)
+    (_ : (encrypt (run init ops) ver ctx aad nonce plain).2 = .okArt h v)
+    (later : List Op) (_ : ∀ o ∈ later, o.keepsRingOrFaultOrAnyRestore = true)
+    (_ : restoresFail (encrypt (run init ops) ver ctx aad nonce plain).1 later = true),
+    ∃ p2, (run (encrypt (run init ops) ver ctx aad nonce plain).1 later).pol = some p2 ∧
+      (p2.minDec ≤ v →
+        (decrypt (run (encrypt (run init ops) ver ctx aad nonce plain).1 later) h .same .same ctx aad).2 = .okPlain plain)
+
+/-- **old_versions_under_faults_bare_restore_cex (F39, library call only).** Create, make the key exportable, take a
+backup, rotate, encrypt (version 2); then `RestorePolicy` (force) called WITHOUT a transaction whose policy `Put` —
+the third of the call — fails after the backup's archive was written; rotate; raise `min_decryption_version` to 3
+and lower it to 1. The version-2 ciphertext, inside `[1, 3]`, is refused: the existing ring was paired with the
+backup's shorter archive, the rotation padded it with an empty entry for version 2, and that entry was loaded back. -/
+theorem old_versions_under_faults_bare_restore_cex : ¬ old_versions_under_faults_bare_restore_full := by
   intro hfull
   obtain ⟨p2, hp2, hdec⟩ := hfull
     [.new .aes256 false false, .config none none none (some true) (some true), .backup, .rotate]
     (by unfold FF; decide) 0 "-" "-" "-" "70" 1 2 (by decide)
-    [.failPut 3, .restore 1 true, .rotate, .config (some 3) none none none none, .config (some 1) none none none none]
+    [.failPut 3, .restoreRaw 1 true, .rotate, .config (some 3) none none none none, .config (some 1) none none none none]
     (by decide) (by decide)
   have hp : p2.minDec = 1 := by
     have : (run (encrypt (run init [.new .aes256 false false, .config none none none (some true) (some true), .backup,
         .rotate]) 0 "-" "-" "-" "70").1
-      [.failPut 3, .restore 1 true, .rotate, .config (some 3) none none none none,
+      [.failPut 3, .restoreRaw 1 true, .rotate, .config (some 3) none none none none,
        .config (some 1) none none none none]).pol.map (·.minDec) = some 1 := by decide
     rw [hp2] at this
     exact Option.some.inj this
@@ -438,15 +441,21 @@ theorem old_versions_under_faults_cex : ¬ old_versions_under_faults_full := by
   revert hbad
   decide
 
-/-- the same history with the fault inside `trim` instead (the F38 scenario) is covered by
-    `old_versions_under_faults_partial`: its hypothesis holds and the ciphertext still decrypts -/
+/-- non-vacuity of `old_versions_under_faults`: the F38 history (fault inside `trim`) and the F39 history through the
+    endpoint (fault inside `restore`) meet its hypotheses, and the ciphertexts still decrypt -/
 example :
-    txFaults false [.config (some 1) (some 1) none none none, .failPut 1, .trim 1, .trim 1,
-                    .config (some 3) (some 3) none none none, .config (some 1) none none none none] = true ∧
     (decrypt (run (encrypt (run init [.new .aes256 false false, .rotate, .rotate]) 0 "-" "-" "-" "70").1
       [.config (some 1) (some 1) none none none, .failPut 1, .trim 1, .trim 1,
        .config (some 3) (some 3) none none none, .config (some 1) none none none none]) 1 .same .same "-" "-").2
-      = .okPlain "70" := by decide
+      = .okPlain "70" ∧
+    restoresFail (encrypt (run init [.new .aes256 false false, .config none none none (some true) (some true), .backup,
+        .rotate]) 0 "-" "-" "-" "70").1
+      [.failPut 3, .restore 1 true, .rotate, .config (some 3) none none none none,
+       .config (some 1) none none none none] = true ∧
+    (decrypt (run (encrypt (run init [.new .aes256 false false, .config none none none (some true) (some true), .backup,
+        .rotate]) 0 "-" "-" "-" "70").1
+      [.failPut 3, .restore 1 true, .rotate, .config (some 3) none none none none,
+       .config (some 1) none none none none]) 1 .same .same "-" "-").2 = .okPlain "70" := by decide
 
 /-! ### non-vacuity: concrete histories meeting the hypotheses -/
 
